@@ -174,15 +174,20 @@ def isfile (ix : Index) (fspath : Str) : Bool :=
   match kindAt ix fspath with | some (.file _) => true | _ => false
 def exists_ (ix : Index) (fspath : Str) : Bool := (kindAt ix fspath).isSome
 
-/-- names in a directory: children created by the scan plus link entries living there -/
+/-- names in the directory with canonical path `p`: children created by the scan plus link
+    entries living there -/
+def names (ix : Index) (p : Path) : List Str :=
+  let kids := ix.nodes.filterMap fun (q, _) => if q.dropLast = p ∧ q ≠ [] then q.getLast? else none
+  let links := ix.aliases.filterMap fun (q, _) => if q.dropLast = p ∧ q ≠ [] then q.getLast? else none
+  (kids ++ links.filter fun n => !kids.contains n).eraseDups
+
 def listdir (ix : Index) (fspath : Str) : Option (List Str) :=
   match lookup ix fspath with
   | none => none
-  | some p =>
-    if ix.kind? p != some .dir then none
-    else
-      let kids := ix.nodes.filterMap fun (q, _) => if q.dropLast = p ∧ q ≠ [] then q.getLast? else none
-      let links := ix.aliases.filterMap fun (q, _) => if q.dropLast = p ∧ q ≠ [] then q.getLast? else none
-      some (kids ++ links.filter fun n => !kids.contains n).eraseDups
+  | some p => if ix.kind? p != some .dir then none else some (names ix p)
+
+/-- `VFSZip._inarchive`: the selector is the archive's own or lies below it; every other
+    selector is the underlying file system's -/
+def inArchive (zipSel sel : Str) : Bool := sel == zipSel || isPrefixB (zipSel ++ [47]) sel
 
 end Pyg.Zip
